@@ -2,6 +2,8 @@
 
 package mapping
 
+import "io"
+
 // Export shim for the C16 verification harness (add-only; compiled only with -tags verif).
 
 // VerifAddTraffic adds to the handler's local traffic counters so that the final stats report of the clean-up has
@@ -18,3 +20,11 @@ func (h *BaseMappingHandler) VerifReportStats() { h.reportStats() }
 func (h *BaseMappingHandler) VerifLocalTraffic() (int64, int64) {
 	return h.trafficStats.BytesSent.Load(), h.trafficStats.BytesReceived.Load()
 }
+
+// VerifHandleConnection runs the unexported handleConnection for one accepted local connection (what acceptLoop does).
+func (h *BaseMappingHandler) VerifHandleConnection(conn io.ReadWriteCloser) { h.handleConnection(conn) }
+
+// VerifActiveConns / VerifConnectionCount expose the connection-slot counter and the closed-tunnel counter that the
+// OnClosed closure of handleConnection updates.
+func (h *BaseMappingHandler) VerifActiveConns() int32    { return h.activeConnCount.Load() }
+func (h *BaseMappingHandler) VerifConnectionCount() int64 { return h.trafficStats.ConnectionCount.Load() }
